@@ -403,6 +403,7 @@ func runC02(r *mc.Run) {
 		}
 		r.Eval(id, true, "config-intel:"+out)
 	}
+	c02Histories(r)
 	// Intel's own sample quote: accepted under the embedded root at its reference time, rejected under {T}.
 	for _, pc := range []struct {
 		name string
@@ -420,6 +421,113 @@ func runC02(r *mc.Run) {
 		}
 		r.Eval(id, true, "intel:"+verdict(err))
 	}
+}
+
+// c02Histories: every sequence of a fixed length over {set TrustedRoots of ONE shared options value to
+// nil / {T} / {F} / {T,F} / empty, copy the options by value, verify a quote under T / under F / Intel's
+// sample}; each verification must be decided by the pool configured at that moment.
+func c02Histories(r *mc.Run) {
+	T, F := world.CachedPKI("T"), world.CachedPKI("F")
+	wT, wF := world.Honest("T"), world.Honest("F")
+	pools := []struct {
+		name string
+		mk   func() *x509.CertPool
+		t, f bool // contains T's / F's root
+	}{
+		{"nil", func() *x509.CertPool { return nil }, false, false},
+		{"{T}", func() *x509.CertPool { return world.Pool(T.Root) }, true, false},
+		{"{F}", func() *x509.CertPool { return world.Pool(F.Root) }, false, true},
+		{"{T,F}", func() *x509.CertPool { return world.Pool(T.Root, F.Root) }, true, true},
+		{"empty", func() *x509.CertPool { return world.Pool() }, false, false},
+	}
+	type op struct {
+		name  string
+		kind  int // 0 set pool, 1 copy, 2 verify
+		arg   int
+		level int
+	}
+	var ops []op
+	for i, p := range pools {
+		ops = append(ops, op{"TrustedRoots=" + p.name, 0, i, 0})
+	}
+	ops = append(ops, op{"copy-options-by-value", 1, 0, 0})
+	nr := len(ops)
+	for _, l := range []int{world.L0, world.L1} {
+		ops = append(ops, op{"verify(under-T," + lvlName[l] + ")", 2, 0, l}, op{"verify(under-F," + lvlName[l] + ")", 2, 1, l})
+	}
+	ops = append(ops, op{"verify(intel-sample,L0)", 2, 2, world.L0})
+	n := len(ops)
+	nv := n - nr
+	depth := 4
+	if r.Thorough() {
+		depth = 5
+	}
+	total := nv
+	for i := 1; i < depth; i++ {
+		total *= n
+	}
+	done := r.Parallel(total, func(idx int) {
+		seq := make([]int, depth)
+		x := idx
+		seq[depth-1] = nr + x%nv
+		x /= nv
+		for i := depth - 2; i >= 0; i-- {
+			seq[i] = x % n
+			x /= n
+		}
+		id := "history/"
+		for _, k := range seq {
+			id += ops[k].name + ";"
+		}
+		if !r.Want(id) {
+			return
+		}
+		o := &verify.Options{}
+		cur := 0
+		out := ""
+		for step, k := range seq {
+			p := ops[k]
+			switch p.kind {
+			case 0:
+				cur = p.arg
+				o.TrustedRoots = pools[cur].mk()
+			case 1:
+				c := *o
+				o = &c
+			case 2:
+				var raw []byte
+				var want bool
+				var now verify.TimeSet
+				switch p.arg {
+				case 0:
+					raw, want, now, o.Getter = wT.Raw(), pools[cur].t, wT.Now, wT.Getter.Clone()
+				case 1:
+					raw, want, now, o.Getter = wF.Raw(), pools[cur].f, wF.Now, wF.Getter.Clone()
+				case 2:
+					raw, want, now, o.Getter = testdata.RawQuote, pools[cur].name == "nil", world.TimeSetAt(intelRefTime), nil
+				}
+				o.Now = &now
+				o.GetCollateral, o.CheckRevocations = p.level >= 1, false
+				err := world.SafeVerifyRaw(raw, o)
+				v := verdict(err)
+				detail := map[string]any{"step": step + 1, "pool_now": pools[cur].name, "error": errStr(err)}
+				switch {
+				case world.IsPanic(err):
+					r.Violate("history:panic:"+crashSite(err), id, "verification through a re-used options value crashes: "+errStr(err), detail)
+				case err == nil && !want:
+					r.Violate("history:trusts-root-not-in-current-pool", id, "through a re-used options value a quote is accepted although its root is not in the pool configured for this call ("+pools[cur].name+")", detail)
+					v = "accept!"
+				case err != nil && want:
+					r.Violate("history:distrusts-root-in-current-pool", id, "through a re-used options value a quote is rejected although its root is in the pool configured for this call ("+pools[cur].name+"): "+errStr(err), detail)
+					v = "reject!"
+				}
+				out += fmt.Sprintf("%v/%s;", want, v)
+			}
+		}
+		r.Eval(id, true, "history:"+out)
+	})
+	r.SectionDone(mc.Section{Name: "reused-options-histories", Evaluations: int64(done), MaxDepth: depth, Exhaustive: done == total,
+		Note: fmt.Sprintf("alphabet of %d operations (%d pools, copy, %d verifications), every sequence of length %d ending in a verification", n, len(pools), nv, depth)})
 }
 
 func keyOfCert(c *x509.Certificate, pkis ...*world.PKI) *world.Key {
